@@ -25,7 +25,7 @@ use std::{
     collections::{BTreeMap, BTreeSet, HashMap},
     ffi::{c_char, c_void, CString},
     io::{Cursor, Read, Seek, SeekFrom, Write},
-    path::{Path, PathBuf},
+    path::Path,
     sync::atomic::{AtomicBool, AtomicU8, AtomicUsize, Ordering::Relaxed},
 };
 
@@ -320,6 +320,7 @@ struct Consts {
     data: Vec<u8>,
     excl: [u64; 2],
     arr: [*const c_char; 2],
+    bad: CString,
 }
 
 fn consts() -> Consts {
@@ -354,6 +355,7 @@ fn consts() -> Consts {
         data: vec![7u8; 64],
         excl: [2, 100],
         arr: [b"c2pa.actions\0".as_ptr() as *const c_char, std::ptr::null()],
+        bad: CString::new("{not json").unwrap(),
     }
 }
 
@@ -520,6 +522,22 @@ unsafe fn dispatch(name: &str, a: &[usize], len0: bool, env: &CallEnv) -> Raw {
     r
 }
 
+/// Clear the thread's last error, call, read the last error back — on this thread or on a
+/// freshly spawned one (the last error and any per-thread state of the library live there).
+fn call_and_observe(name: &str, vals: &[usize], len0: bool, k: usize, new_ctx: usize, on_thread: bool) -> (Raw, i32, String) {
+    let body = move || {
+        let _ = CimplError::take_last();
+        let env = CallEnv { k: unsafe { &*(k as *const Consts) }, new_ctx: new_ctx as *mut Cur };
+        let r = unsafe { dispatch(name, vals, len0, &env) };
+        (r, CimplError::last_code(), CimplError::last_message().unwrap_or_default())
+    };
+    if on_thread {
+        std::thread::scope(|s| s.spawn(body).join().expect("call thread"))
+    } else {
+        body()
+    }
+}
+
 // ------------------------------------------------------------------------------------------
 // table (regenerated by translators/c31_ffi_guards.py) — used to decide where to fork and
 // for the inventory obligation; never for the oracle's expectations
@@ -608,6 +626,8 @@ enum Class {
     Mem,
     /// byte buffer with length 0
     MemLen0,
+    /// valid string whose content the SDK rejects (malformed JSON)
+    MemBad,
 }
 
 impl Class {
@@ -620,8 +640,18 @@ impl Class {
             Class::Foreign => "foreign",
             Class::Mem => "mem",
             Class::MemLen0 => "len0",
+            Class::MemBad => "badcontent",
         }
     }
+}
+
+/// How one call is to be generated / executed.
+#[derive(Clone, Copy, Default)]
+struct Opts {
+    /// every argument that is not forced is valid (no random NULLs, handles of the right type)
+    strict: bool,
+    /// execute the call on a freshly spawned thread
+    thread: bool,
 }
 
 #[derive(Default)]
@@ -649,10 +679,51 @@ struct Seq<'a> {
     /// stream contexts owned by the harness (kept until the end of the sequence)
     ctxs: Vec<*mut Cur>,
     foreign: Vec<Box<[usize; 8]>>,
+    /// addresses already used by the call under construction (strict mode: no aliasing)
+    avoid: Vec<usize>,
     out: SeqOut,
     out_slot: Box<usize>,
-    cur_file: PathBuf,
     seq_no: usize,
+}
+
+/// "What is executing now", in memory shared with the supervising process (survives a crash of
+/// the worker, costs no I/O).
+static CUR_NOTE: AtomicUsize = AtomicUsize::new(0);
+const NOTE_LEN: usize = 512;
+
+fn note_init() {
+    let p = unsafe { libc::mmap(std::ptr::null_mut(), NOTE_LEN, libc::PROT_READ | libc::PROT_WRITE, libc::MAP_SHARED | libc::MAP_ANONYMOUS, -1, 0) };
+    if p != libc::MAP_FAILED {
+        CUR_NOTE.store(p as usize, Relaxed);
+    }
+}
+
+fn note_set(s: &str) {
+    let p = CUR_NOTE.load(Relaxed) as *mut u8;
+    if !p.is_null() {
+        let b = s.as_bytes();
+        let n = b.len().min(NOTE_LEN - 1);
+        unsafe {
+            std::ptr::copy_nonoverlapping(b.as_ptr(), p, n);
+            *p.add(n) = 0;
+        }
+    }
+}
+
+fn note_get() -> String {
+    let p = CUR_NOTE.load(Relaxed) as *const u8;
+    if p.is_null() {
+        return String::new();
+    }
+    let mut v = vec![];
+    for i in 0..NOTE_LEN {
+        let c = unsafe { *p.add(i) };
+        if c == 0 {
+            break;
+        }
+        v.push(c);
+    }
+    String::from_utf8_lossy(&v).into_owned()
 }
 
 fn spec(name: &str) -> &'static FnSpec {
@@ -699,7 +770,10 @@ impl<'a> Seq<'a> {
         });
         match c {
             Class::Valid => {
-                let v = self.live_of(ty);
+                let mut v = self.live_of(ty);
+                if v.iter().any(|a| !self.avoid.contains(a)) {
+                    v.retain(|a| !self.avoid.contains(a));
+                }
                 if v.is_empty() {
                     let alt = if self.rng.chance(1, 2) { Class::Null } else { Class::Foreign };
                     return self.pick_handle(ty, Some(alt));
@@ -801,18 +875,23 @@ impl<'a> Seq<'a> {
     }
 
     /// Build the argument vector of one call. Returns (values, classes).
-    fn build_args(&mut self, sp: &FnSpec, force: &BTreeMap<usize, Class>, fixed: Option<(usize, usize)>) -> (Vec<usize>, Vec<Class>, bool) {
+    fn build_args(&mut self, sp: &FnSpec, force: &BTreeMap<usize, Class>, fixed: &[(usize, usize, Class)], strict: bool) -> (Vec<usize>, Vec<Class>, bool) {
         let mut vals = vec![];
         let mut cls = vec![];
         let mut len0 = false;
+        self.avoid = fixed.iter().map(|f| f.1).collect();
         for (i, r) in sp.roles.iter().enumerate() {
-            let want = force.get(&i).copied();
-            if let Some((fi, fp)) = fixed {
-                if fi == i {
-                    vals.push(fp);
-                    cls.push(Class::Valid);
-                    continue;
-                }
+            let mut want = force.get(&i).copied();
+            if let Some((_, fp, fc)) = fixed.iter().find(|f| f.0 == i) {
+                vals.push(*fp);
+                cls.push(*fc);
+                continue;
+            }
+            if strict && want.is_none() {
+                want = Some(match r {
+                    H(_) | HOpt(_) | Free | OwnedArr => Class::Valid,
+                    _ => Class::Mem,
+                });
             }
             let (c, v) = match *r {
                 H(t) => self.pick_handle(t, want),
@@ -828,6 +907,8 @@ impl<'a> Seq<'a> {
                 Str(d) => {
                     if want == Some(Class::Null) || (want.is_none() && self.rng.chance(1, 25)) {
                         (Class::Null, 0)
+                    } else if want == Some(Class::MemBad) {
+                        (Class::MemBad, self.k.bad.as_ptr() as usize)
                     } else {
                         let p = match d {
                             "@certs" => self.k.certs.as_ptr(),
@@ -863,7 +944,7 @@ impl<'a> Seq<'a> {
                     }
                 }
                 ArrOpt => {
-                    if self.rng.chance(1, 2) {
+                    if want != Some(Class::Mem) && self.rng.chance(1, 2) {
                         (Class::Null, 0)
                     } else if sp.name == "c2pa_builder_set_data_hash_exclusions" {
                         (Class::Mem, self.k.excl.as_ptr() as usize)
@@ -874,6 +955,9 @@ impl<'a> Seq<'a> {
                 Opaque => (Class::Null, 0),
                 Scalar | Cb => (Class::Mem, 1),
             };
+            if matches!(r, H(_) | HOpt(_)) && c == Class::Valid {
+                self.avoid.push(v);
+            }
             vals.push(v);
             cls.push(c);
         }
@@ -907,9 +991,9 @@ impl<'a> Seq<'a> {
 
     /// Execute one call (in process, or in a forked child when the table says it would reach
     /// an unchecked use) and record request op, implementation reply and oracle verdicts.
-    fn exec(&mut self, name: &'static str, force: &BTreeMap<usize, Class>, fixed: Option<(usize, usize)>) {
+    fn exec(&mut self, name: &'static str, force: &BTreeMap<usize, Class>, fixed: &[(usize, usize, Class)], opts: Opts) -> Option<usize> {
         let sp = spec(name);
-        let (vals, cls, len0) = self.build_args(sp, force, fixed);
+        let (vals, cls, len0) = self.build_args(sp, force, fixed, opts.strict);
         let args_s = self.arg_tokens(sp, &vals, &cls);
         self.count(&format!("fn:{name}"));
         for (i, c) in cls.iter().enumerate() {
@@ -931,7 +1015,7 @@ impl<'a> Seq<'a> {
             .collect();
         let risky = row.and_then(|r| table_unchecked_use(r, &null, &bad, len0));
         let desc = format!("seq={} op={} {}({})", self.seq_no, self.out.req_ops.len(), name, cls.iter().map(|c| c.s()).collect::<Vec<_>>().join(","));
-        let _ = std::fs::write(&self.cur_file, &desc);
+        note_set(&desc);
 
         let new_ctx = if name == "c2pa_create_stream" { self.new_stream_ctx() } else { std::ptr::null_mut() };
         self.rewind_streams();
@@ -970,23 +1054,66 @@ impl<'a> Seq<'a> {
             self.out.nontrivial.push(format!("ub:{name}:{}", cls[p].s()));
             self.out.req_ops.push(format!("{name};{args_s};1;-"));
             self.out.imp_ops.push("UB".to_string());
-            return;
+            return None;
+        }
+
+        // ---- a stale handle (released, address not handed out again) goes to a registry-guarded
+        // parameter: the registry must reject it. Look first in a forked child (an accepted
+        // dangling pointer is a use-after-free and may crash); only a rejected call is then
+        // executed here.
+        let stale: Option<usize> = cls.iter().enumerate().position(|(i, c)| {
+            *c == Class::Freed && matches!(sp.roles[i], H(_) | HOpt(_)) && self.dead.contains(&vals[i]) && !self.live.contains_key(&vals[i])
+        });
+        if let Some(si) = stale {
+            self.count("stale-preflight");
+            let kp = self.k as *const Consts as usize;
+            let vals2 = vals.clone();
+            let nc = new_ctx as usize;
+            let th = opts.thread;
+            let rep = in_child(move || {
+                let (r, code, msg) = call_and_observe(name, &vals2, len0, kp, nc, th);
+                (r.ptr, r.int, code, !msg.is_empty())
+            });
+            let pname = row.map(|r| r["params"][si]["name"].as_str().unwrap_or("?").to_string()).unwrap_or_default();
+            let verdict = match rep {
+                Child::Crashed(how) => Some((format!("{desc}: {how} — stale `{pname}` (consumed/released earlier, address not reissued) was used"), "1", "crash")),
+                Child::Returned(ptr, int, code, has_msg) => {
+                    let ind_fail = match sp.ret {
+                        Ret::New(_) | Ret::StrArray => ptr == 0,
+                        Ret::Int | Ret::OutBytes(_) => int < 0,
+                        _ => code != 0,
+                    };
+                    if ind_fail && has_msg {
+                        None
+                    } else {
+                        Some((format!("{desc}: accepted: ptr={ptr:#x} int={int} last_error_code={code} message={has_msg} — stale `{pname}` (consumed/released earlier, address not reissued){}", if th { " on another thread" } else { "" }),
+                            if ind_fail { "1" } else { "0" }, if has_msg { "other" } else { "none" }))
+                    }
+                }
+            };
+            if let Some((detail, ind, le)) = verdict {
+                self.out.fails.push(("reuse-of-consumed-handle-accepted".into(), detail));
+                self.out.nontrivial.push(format!("stale:{name}:{si}"));
+                let ind = if matches!(sp.ret, Ret::Unit | Ret::Bool | Ret::StrOpt) { "?" } else { ind };
+                self.out.req_ops.push(format!("{name};{args_s};1;-"));
+                self.out.imp_ops.push(format!("{ind}:{le}:-:-"));
+                return None;
+            }
         }
 
         // ---- in process
         let live_before: BTreeMap<usize, &'static str> = self.live.clone();
         let arrays_before = self.arrays.clone();
-        let _ = CimplError::take_last();
         let _ = take_events();
         let dbl0 = DOUBLE.load(Relaxed);
-        let env = CallEnv { k: self.k, new_ctx };
         WATCHING.store(true, Relaxed);
-        let raw = unsafe { dispatch(name, &vals, len0, &env) };
+        let (raw, code, msg) = call_and_observe(name, &vals, len0, self.k as *const Consts as usize, new_ctx as usize, opts.thread);
         WATCHING.store(false, Relaxed);
         let events = take_events();
-        let code = CimplError::last_code();
-        let msg = CimplError::last_message().unwrap_or_default();
         let dbl = DOUBLE.load(Relaxed) - dbl0;
+        if opts.thread {
+            self.count("on-other-thread");
+        }
 
         // released handles (in event order, first release of each address only)
         let mut freed: Vec<usize> = vec![];
@@ -1144,6 +1271,7 @@ impl<'a> Seq<'a> {
                 }
             }
         }
+        new_handles.first().map(|h| h.0)
     }
 
     /// End of sequence: release everything that is still live so that the next sequence
@@ -1151,12 +1279,12 @@ impl<'a> Seq<'a> {
     fn drain(&mut self) {
         let arrays: Vec<usize> = self.arrays.keys().copied().collect();
         for a in arrays {
-            self.exec("c2pa_free_string_array", &BTreeMap::new(), Some((0, a)));
+            self.exec("c2pa_free_string_array", &BTreeMap::new(), &[(0, a, Class::Valid)], Opts::default());
         }
         let live: Vec<usize> = self.live.keys().copied().collect();
         for a in live {
             if self.live.contains_key(&a) {
-                self.exec("c2pa_free", &BTreeMap::new(), Some((0, a)));
+                self.exec("c2pa_free", &BTreeMap::new(), &[(0, a, Class::Valid)], Opts::default());
             }
         }
         for c in std::mem::take(&mut self.ctxs) {
@@ -1282,7 +1410,153 @@ fn witnesses() -> Vec<(&'static str, Vec<(&'static str, BTreeMap<usize, Class>)>
     ]
 }
 
-fn run_sequence(k: &Consts, table: &Table, seed: u64, seq_no: usize, len: usize, witness: Option<&[(&'static str, BTreeMap<usize, Class>)]>, cur_file: &Path) -> SeqOut {
+
+/// One directed sequence over a single handle `H` of type `ty`:
+/// prerequisites; `uses` (each validates H and nothing after it); `consume` (takes H away:
+/// an untracking function of the FfiGuards table, or `c2pa_free`), with the given classes for
+/// its secondary arguments; then immediately `reuse` with the stale H — nothing else touches
+/// the registry in between.
+#[derive(Clone)]
+struct Directed {
+    ty: &'static str,
+    uses: Vec<&'static str>,
+    consume: &'static str,
+    cparam: usize,
+    cforce: BTreeMap<usize, Class>,
+    reuse: &'static str,
+    rparam: usize,
+    thread: bool,
+}
+
+const HANDLE_TYPES: &[&str] = &["settings", "contextBuilder", "context", "reader", "builder", "signer", "stream", "resolver"];
+
+fn ctor_of(t: &str) -> &'static str {
+    match t {
+        "settings" => "c2pa_settings_new",
+        "contextBuilder" => "c2pa_context_builder_new",
+        "context" => "c2pa_context_new",
+        "reader" => "c2pa_reader_new",
+        "builder" => "c2pa_builder_from_json",
+        "signer" => "c2pa_signer_from_info",
+        "stream" => "c2pa_create_stream",
+        _ => "c2pa_http_resolver_create",
+    }
+}
+
+fn directed_plan(table: &Table, thorough: bool) -> Vec<Directed> {
+    let mut plan = vec![];
+    for ty in HANDLE_TYPES {
+        // consuming calls: every (function, parameter) the table marks `untrack` for this type
+        let mut consumers: Vec<(&'static str, usize)> = vec![];
+        for sp in SPECS {
+            if let Some(row) = table.rows.get(sp.name) {
+                for e in row["events"].as_array().unwrap() {
+                    if e["use"].as_str() == Some("untrack") && e["ty"].as_str() == Some(*ty) {
+                        consumers.push((sp.name, e["p"].as_u64().unwrap() as usize));
+                    }
+                }
+            }
+        }
+        let consumer_names: Vec<&str> = consumers.iter().map(|c| c.0).collect();
+        consumers.push(("c2pa_free", 0));
+        // variants of the secondary arguments
+        let mut cvariants: Vec<(&'static str, usize, BTreeMap<usize, Class>)> = vec![];
+        for (g, cp) in &consumers {
+            cvariants.push((g, *cp, BTreeMap::new()));
+            for (j, r) in spec(g).roles.iter().enumerate() {
+                if j == *cp {
+                    continue;
+                }
+                let alts: &[Class] = match r {
+                    Str(_) => &[Class::Null, Class::MemBad],
+                    H(_) | HOpt(_) => &[Class::Null, Class::Foreign, Class::WrongType],
+                    Bytes => &[Class::Null],
+                    _ => &[],
+                };
+                for a in alts {
+                    let mut f = BTreeMap::new();
+                    f.insert(j, *a);
+                    cvariants.push((g, *cp, f));
+                }
+            }
+        }
+        // validate-only uses: H is the only handle of the call, so it is the last one validated
+        let single = |sp: &FnSpec| {
+            let hs: Vec<&Role> = sp.roles.iter().filter(|r| matches!(r, H(_) | HOpt(_) | Free | OwnedArr)).collect();
+            hs.len() == 1 && *hs[0] == H(ty) && !consumer_names.contains(&sp.name)
+        };
+        let uses_any: Vec<&'static str> = SPECS.iter().filter(|sp| single(sp)).map(|sp| sp.name).collect();
+        let uses_na: Vec<&'static str> = SPECS.iter().filter(|sp| single(sp) && matches!(sp.ret, Ret::Int | Ret::Unit | Ret::Bool)).map(|sp| sp.name).collect();
+        // reuse: every (function, parameter) that takes this handle type, plus the universal frees
+        let mut reuses: Vec<(&'static str, usize)> = vec![];
+        for sp in SPECS {
+            for (i, r) in sp.roles.iter().enumerate() {
+                if *r == H(ty) || *r == HOpt(ty) {
+                    reuses.push((sp.name, i));
+                }
+            }
+        }
+        reuses.push(("c2pa_free", 0));
+        reuses.push(("cimpl_free", 0));
+        for (ci, (g, cp, f)) in cvariants.iter().enumerate() {
+            for (ri, (h, rp)) in reuses.iter().enumerate() {
+                let mut use_sets: Vec<Vec<&'static str>> = vec![];
+                let mut u = vec![];
+                if !uses_any.is_empty() && (ci + ri) % 4 != 0 {
+                    u.push(uses_any[(ci + ri) % uses_any.len()]);
+                }
+                if !uses_na.is_empty() {
+                    u.push(uses_na[(ci * 7 + ri) % uses_na.len()]);
+                }
+                use_sets.push(u);
+                if thorough {
+                    use_sets.push(vec![]);
+                    for x in &uses_any {
+                        use_sets.push(vec![*x]);
+                    }
+                }
+                for u in use_sets {
+                    plan.push(Directed { ty, uses: u, consume: g, cparam: *cp, cforce: f.clone(), reuse: h, rparam: *rp, thread: false });
+                }
+            }
+            // the same pattern with the reuse on another thread
+            let (h, rp) = reuses.iter().find(|(h, _)| uses_any.contains(h)).copied().unwrap_or(reuses[0]);
+            let u = uses_na.first().or(uses_any.first()).map(|x| vec![*x]).unwrap_or_default();
+            plan.push(Directed { ty, uses: u, consume: g, cparam: *cp, cforce: f.clone(), reuse: h, rparam: rp, thread: true });
+        }
+    }
+    plan
+}
+
+fn run_directed(s: &mut Seq, d: &Directed) {
+    let strict = Opts { strict: true, thread: false };
+    let none = BTreeMap::new();
+    // every handle the three steps may need, created before the pattern starts
+    for c in ["c2pa_create_stream", "c2pa_create_stream", "c2pa_signer_from_info", "c2pa_signer_from_info", "c2pa_settings_new",
+              "c2pa_context_builder_new", "c2pa_context_new", "c2pa_reader_new", "c2pa_builder_from_json", "c2pa_http_resolver_create"] {
+        s.exec(c, &none, &[], strict);
+    }
+    let h = match s.exec(ctor_of(d.ty), &none, &[], strict) {
+        Some(h) => h,
+        None => return,
+    };
+    s.count(&format!("directed:{}", d.ty));
+    for u in &d.uses {
+        let i = spec(u).roles.iter().position(|r| *r == H(d.ty)).unwrap();
+        s.exec(u, &none, &[(i, h, Class::Valid)], strict);
+    }
+    s.exec(d.consume, &d.cforce, &[(d.cparam, h, Class::Valid)], strict);
+    if s.live.contains_key(&h) || !s.dead.contains(&h) {
+        // not taken (an earlier guard of the consuming call failed first) or the address was reissued
+        s.count("directed:not-stale-after-consume");
+        return;
+    }
+    s.count("directed:stale-reuse");
+    s.out.nontrivial.push(format!("directed:{}:{}:{}:{}", d.consume, d.cparam, d.reuse, d.rparam));
+    s.exec(d.reuse, &none, &[(d.rparam, h, Class::Freed)], Opts { strict: true, thread: d.thread });
+}
+
+fn run_sequence(k: &Consts, table: &Table, seed: u64, seq_no: usize, len: usize, witness: Option<&[(&'static str, BTreeMap<usize, Class>)]>, directed: Option<&Directed>) -> SeqOut {
     let mut s = Seq {
         k,
         table,
@@ -1295,17 +1569,18 @@ fn run_sequence(k: &Consts, table: &Table, seed: u64, seq_no: usize, len: usize,
         dead_arrays: BTreeMap::new(),
         ctxs: vec![],
         foreign: vec![],
+        avoid: vec![],
         out: SeqOut::default(),
         out_slot: Box::new(0),
-        cur_file: cur_file.to_path_buf(),
         seq_no,
     };
     match witness {
         Some(ops) => {
             for (name, force) in ops {
-                s.exec(name, force, None);
+                s.exec(name, force, &[], Opts::default());
             }
         }
+        None if directed.is_some() => run_directed(&mut s, directed.unwrap()),
         None => {
             for _ in 0..len {
                 let name = weighted(&mut s.rng);
@@ -1325,11 +1600,11 @@ fn run_sequence(k: &Consts, table: &Table, seed: u64, seq_no: usize, len: usize,
                             };
                             let mut f = BTreeMap::new();
                             f.insert(0usize, Class::Mem);
-                            s.exec(ctor, &f, None);
+                            s.exec(ctor, &f, &[], Opts::default());
                         }
                     }
                 }
-                s.exec(name, &BTreeMap::new(), None);
+                s.exec(name, &BTreeMap::new(), &[], Opts::default());
             }
         }
     }
@@ -1349,17 +1624,20 @@ fn threads_now() -> u64 {
 }
 
 /// Worker: runs sequences `from..to`, appending one JSON line per finished sequence.
-fn worker(seed: u64, from: usize, to: usize, nwit: usize, len: usize, file: &Path, cur_file: &Path) {
+fn worker(seed: u64, from: usize, to: usize, nwit: usize, len: usize, thorough: bool, file: &Path) {
     let k = consts();
     let table = load_table().expect("table");
     let wit = witnesses();
+    let plan = directed_plan(&table, thorough);
     let mut f = std::fs::OpenOptions::new().create(true).append(true).open(file).expect("journal");
     for i in from..to {
         let sseed = seed.wrapping_mul(0x2545_F491_4F6C_DD1D).wrapping_add(i as u64);
         let out = if i < nwit {
-            run_sequence(&k, &table, sseed, i, 0, Some(&wit[i].1), cur_file)
+            run_sequence(&k, &table, sseed, i, 0, Some(&wit[i].1), None)
+        } else if i < nwit + plan.len() {
+            run_sequence(&k, &table, sseed, i, 0, None, Some(&plan[i - nwit]))
         } else {
-            run_sequence(&k, &table, sseed, i, len, None, cur_file)
+            run_sequence(&k, &table, sseed, i, len, None, None)
         };
         let line = json!({
             "seq": i,
@@ -1377,7 +1655,7 @@ fn worker(seed: u64, from: usize, to: usize, nwit: usize, len: usize, file: &Pat
 
 fn run(run: &mut Run, rng: &mut Rng) {
     run.rule = "a call in which at least one required pointer parameter received NULL, a freed handle, a handle of the wrong type or a foreign pointer (key = function:parameter:class), plus releases of live handles and calls that reach an unchecked use (ub:…)".into();
-    let (nseq, len) = if run.thorough() { (12000usize, 40usize) } else { (700usize, 30usize) };
+    let (nseq, len) = if run.thorough() { (8000usize, 40usize) } else { (700usize, 30usize) };
 
     // ---- inventory obligation: catalogue vs regenerated table
     let table = load_table();
@@ -1444,10 +1722,12 @@ fn run(run: &mut Run, rng: &mut Rng) {
     // ---- supervised workers
     let scratch = vh::common::scratch("c31");
     let journal = scratch.join("journal.jsonl");
-    let cur = scratch.join("current-op.txt");
+    note_init();
     let seed = rng.next();
     let nwit = witnesses().len();
-    let total = nseq + nwit;
+    let ndir = directed_plan(table.as_ref().unwrap(), run.thorough()).len();
+    let thorough = run.thorough();
+    let total = nseq + nwit + ndir;
     let mut from = 0usize;
     let mut crashes = 0usize;
     let mut lines: Vec<Value> = vec![];
@@ -1455,7 +1735,7 @@ fn run(run: &mut Run, rng: &mut Rng) {
         let _ = std::fs::remove_file(&journal);
         let pid = unsafe { libc::fork() };
         if pid == 0 {
-            worker(seed, from, total, nwit, len, &journal, &cur);
+            worker(seed, from, total, nwit, len, thorough, &journal);
             unsafe { libc::_exit(0) };
         }
         let mut status = 0i32;
@@ -1473,7 +1753,7 @@ fn run(run: &mut Run, rng: &mut Rng) {
         if !clean || from < total {
             // the worker died inside sequence `from`
             crashes += 1;
-            let what = std::fs::read_to_string(&cur).unwrap_or_default();
+            let what = note_get();
             let how = if libc::WIFSIGNALED(status) { format!("signal {}", libc::WTERMSIG(status)) } else { format!("exit status {}", libc::WEXITSTATUS(status)) };
             let idx = run.case(format!("C31 seq ops=-"), String::new());
             run.fail(idx, "crash-in-guarded-call", format!("the worker process died ({how}) while executing: {what}"));
@@ -1500,7 +1780,7 @@ fn run(run: &mut Run, rng: &mut Rng) {
         }
         max_threads = max_threads.max(v["threads"].as_u64().unwrap_or(0));
     }
-    run.notes.push(format!("sequences={} (incl. {nwit} fixed witnesses) ops/sequence={len} worker_crashes={crashes} max_threads_in_worker={max_threads}", lines.len()));
+    run.notes.push(format!("sequences={} (incl. {nwit} fixed witnesses and {ndir} directed use/consume/reuse sequences) ops/random sequence={len} worker_crashes={crashes} max_threads_in_worker={max_threads}", lines.len()));
     run.obligations.insert("search:all-sequences-completed".into(), lines.len() + crashes >= total);
     let _ = std::fs::remove_dir_all(&scratch);
 }
